@@ -676,7 +676,9 @@ def acker_of(hist, op):
     if leader is None:
         return "no", "changed", None            # the addressed node knew no leader and still answered with success
     ls = spans_of(tl, leader)
-    lead = [x for x in ls if x[3] == "Leader" and x[0] <= td]
+    # the addressed node's own view (term T, leader L) is evidence that L was leader of term T when the view was sampled, even if
+    # the poller of L itself caught L's Leader state a few tens of milliseconds later (one sampling period)
+    lead = [x for x in ls if x[3] == "Leader" and (x[0] <= td or (view[3] != "Leader" and x[4] == view[4] and x[0] <= td + LOOKAHEAD_S))]
     if not lead:
         return "no", "changed", leader
     S = lead[-1]
